@@ -201,6 +201,63 @@ def _arg_for(callee_fi, call, pname):
     return None
 
 
+def _zero_based_or_none(idx, ci, attr):
+    """Is self.<attr> (set in __init__ of class ci or a base) a mapping whose values are `<1-based position> - 1` or None?
+    Then a value can be 0, and a truthiness test of it drops the first position together with the absent ones."""
+    for q in ci.mro:
+        k = idx.classes.get(q)
+        init = k.methods.get('__init__') if k is not None else None
+        if init is None:
+            continue
+        for n in walk_own(init.node):
+            if isinstance(n, ast.Assign) and any(nf.match('self.%s' % attr, t) is not None for t in n.targets) \
+                    and isinstance(n.value, ast.Call):
+                targets, how = idx.resolve_call(init, n.value)
+                for t in targets:
+                    if isinstance(t, tuple):
+                        continue
+                    for ret in lib.returns_of(t.node):
+                        v = ret.value
+                        if isinstance(v, ast.DictComp):
+                            val = v.value
+                            parts = [val.body, val.orelse] if isinstance(val, ast.IfExp) else [val]
+                            minus1 = any(isinstance(x, ast.BinOp) and isinstance(x.op, ast.Sub) and nf.const_value(x.right, None) == 1
+                                         for x in parts)
+                            none = any(isinstance(x, ast.Constant) and x.value is None for x in parts)
+                            if minus1 and none:
+                                return True
+    return False
+
+
+def _post_eval_overrides(r, idx):
+    """Every student-typed expression must reach the validators: a subclass that re-implements post_eval_validation stands
+    between them.  Recognised defect: it forwards a FILTERED view of the expressions whose filter is the truthiness of a
+    0-based position (box 0 is dropped).  Any other override is unreviewed (undecided)."""
+    for ci in idx.family(MM):
+        if ci.qualname == MM or 'post_eval_validation' not in ci.methods:
+            continue
+        f = ci.methods['post_eval_validation']
+        name = '%s.post_eval_validation' % ci.name
+        p_expr = f.params[1] if len(f.params) > 1 else None
+        env = fl.flat_env(f.node)
+        reported = False
+        for c in lib.calls_named(f.node, 'post_eval_validation') + [c for v in ('validate_forbidden_strings_not_used',)
+                                                                     for c in lib.calls_named(f.node, v)]:
+            a0 = fl.expand(c.args[0], env) if c.args else None
+            if isinstance(a0, (ast.DictComp, ast.ListComp, ast.GeneratorExp)) and len(a0.generators) == 1 and a0.generators[0].ifs \
+                    and p_expr and fl.mentions(a0.generators[0].iter, p_expr):
+                cond = nf.canon(a0.generators[0].ifs[0])
+                if isinstance(cond, ast.Subscript) and isinstance(cond.value, ast.Attribute) and fl.name_of(cond.value.value) == f.params[0] \
+                        and _zero_based_or_none(idx, ci, cond.value.attr):
+                    r.violation(name, 'the expressions handed to the validators are filtered by the TRUTHINESS of `%s`, a 0-based position or '
+                                'None: the entry typed into the first box (position 0) is dropped together with the entries the student '
+                                'did not type, so a forbidden string in that box is never checked (use `is not None`)' % unparse(cond),
+                                lib.loc(f, c), expected='%s is not None' % unparse(cond), found=unparse(cond))
+                    reported = True
+        if not reported:
+            r.undecided(name, 'unreviewed override of post_eval_validation between the student\'s expressions and the validators', f.loc)
+
+
 def d2_post_eval(ctx, idx):
     r = ctx.rule('D2.VALIDATE', "post_eval_validation runs all three validators on the student's expression and function set",
                  floor=18)
@@ -260,6 +317,7 @@ def d2_post_eval(ctx, idx):
                                 where)
                 else:
                     r.undecided(C + ': %s(%s)' % (vname, pname), 'argument not recognised: %s' % short(a), where)
+        _post_eval_overrides(r, idx)
         # where the function set comes from: third result of gen_evaluations is the student's
         for q in (FGC, IGC, SGC):
             g = idx.func(q + '.gen_evaluations')
@@ -619,13 +677,18 @@ def d3_validators(ctx, idx):
                         r.ok(C + ': loop', 'the generator/filter visits every required function', where)
 
 
+# Venn regions of (A = always-allowed user functions, D = default functions, B = blacklist, W = whitelist); the element
+# names spell the regions they lie in.  B and W are subsets of D (validate_blacklist_whitelist_config) and never both non-empty.
 PERM_SCENARIOS = [
-    # (description, whitelist, blacklist, expected permitted set)
-    ('blacklist', [], ['b'], {'d1', 'd2', 'u'}),
-    ('no restriction', [], [], {'d1', 'd2', 'b', 'u'}),
-    ('whitelist=[None]', [None], [], {'u'}),
-    ('whitelist', ['d1'], [], {'d1', 'u'}),
+    # (description, defaults D, always-allowed A, whitelist, blacklist, expected permitted set)
+    ('blacklist', ['d', 'ad', 'db', 'adb'], ['a', 'ad', 'adb'], [], ['db', 'adb'], {'a', 'd', 'ad'}),
+    ('no restriction', ['d', 'ad'], ['a', 'ad'], [], [], {'a', 'd', 'ad'}),
+    ('whitelist=[None]', ['d', 'ad'], ['a', 'ad'], [None], [], {'a', 'ad'}),
+    ('whitelist', ['d', 'ad', 'dw', 'adw'], ['a', 'ad', 'adw'], ['dw', 'adw'], [], {'a', 'ad', 'adw', 'dw'}),
 ]
+REGION = {'a': 'a user function only', 'd': 'a default function only', 'ad': 'a user function that overrides a default',
+          'db': 'a black-listed default', 'adb': 'a black-listed name that is ALSO a user function (A and B overlap)',
+          'dw': 'a white-listed default', 'adw': 'a white-listed default that is also a user function'}
 
 
 def d3_permitted(ctx, idx):
@@ -636,8 +699,8 @@ def d3_permitted(ctx, idx):
         C = 'get_permitted_functions'
         p_def, p_wl, p_bl, p_al = fi.params
         paths = nf.decision_paths(fi.node.body)
-        for desc, wl, bl, want in PERM_SCENARIOS:
-            env = {p_def: {'d1': 1, 'd2': 2, 'b': 3}, p_wl: wl, p_bl: bl, p_al: {'u': 4}}
+        for desc, dd, aa, wl, bl, want in PERM_SCENARIOS:
+            env = {p_def: {k: 1 for k in dd}, p_wl: wl, p_bl: bl, p_al: {k: 1 for k in aa}}
             taken = []
             try:
                 for p in paths:
@@ -658,22 +721,15 @@ def d3_permitted(ctx, idx):
                 r.undecided(C + ' [%s]' % desc, 'expression outside the supported set algebra (%s)' % e, fi.loc)
                 continue
             if got == want:
-                r.ok(C + ' [%s]' % desc, 'model defaults {d1,d2,b}, always-allowed {u}, whitelist %s, blacklist %s -> %s'
-                     % (wl, bl, sorted(want)), where)
+                r.ok(C + ' [%s]' % desc, 'over the Venn regions of (defaults %s, user functions %s, whitelist %s, blacklist %s) the result is %s'
+                     % (dd, aa, wl, bl, sorted(want)), where)
             else:
                 extra, missing = sorted(got - want, key=str), sorted(want - got, key=str)
-                why = []
-                if 'b' in extra and 'b' in bl:
-                    why.append('the black-listed function stays permitted')
-                if desc.startswith('whitelist') and set(extra) & {'d2', 'b', 'd1'}:
-                    why.append('default functions outside the whitelist stay permitted')
-                if 'u' in missing:
-                    why.append('user-defined functions are no longer permitted')
-                if missing and not why:
-                    why.append('functions that must be allowed are refused')
-                r.violation(C + ' [%s]' % desc, 'for defaults {d1,d2,b}, always-allowed {u}, whitelist %s, blacklist %s the permitted set is '
-                            '%s, expected %s: %s (`%s`)' % (wl, bl, sorted(got, key=str), sorted(want), '; '.join(why) or 'set differs',
-                                                           short(p.leaf.expr)), where,
+                why = ['%s stays permitted' % REGION.get(x, repr(x)) for x in extra] + \
+                      ['%s is no longer permitted' % REGION.get(x, repr(x)) for x in missing]
+                need = {'blacklist': '(A | D) - B', 'no restriction': 'A | D', 'whitelist=[None]': 'A', 'whitelist': 'A | W'}[desc]
+                r.violation(C + ' [%s]' % desc, 'required %s; `%s` differs on the region(s) %s: %s'
+                            % (need, short(p.leaf.expr, 90), extra + missing, '; '.join(why)), where,
                             expected=str(sorted(want)), found=str(sorted(got, key=str)))
         # the caller
         f = idx.func(MM + '.validate_math_config')
@@ -1144,6 +1200,8 @@ MUTANTS = [
            "        validate_required_functions_used(used_funcs, self.config['blacklist'])", 'D2'),
     Mutant('permitted-only-without-forbidden', MH, "        validate_only_permitted_functions_used(used_funcs, self.permitted_functions)",
            "        if self.config['forbidden_strings']:\n            validate_only_permitted_functions_used(used_funcs, self.permitted_functions)", 'D2'),
+    Mutant('seeded-forbidden-strings-skip-first-box', IG, "    def validate_user_dummy_variable(self, varname):",
+           "    def post_eval_validation(self, expr, used_funcs):\n        entered = {key: expr[key] for key in expr if self.true_input_positions[key]}\n        super(SummationGraderBase, self).post_eval_validation(entered, used_funcs)\n\n    def validate_user_dummy_variable(self, varname):", 'D2'),
     Mutant('sum-functions-from-author', IG, "        return instructor_evals, student_evals, used_funcs\n\n    def evaluate_sum(",
            "        return instructor_evals, student_evals, parse(answer['summand']).functions_used\n\n    def evaluate_sum(", 'D2'),
     Mutant('summand-functions-not-reported', IG, "        used_funcs = lower_used.functions_used.union(upper_used.functions_used, expression_used.functions_used)",
@@ -1167,6 +1225,8 @@ MUTANTS = [
     Mutant('none-whitelist-returns-defaults', MH, "        permitted_functions = set(always_allowed)\n    else:", "        permitted_functions = set(always_allowed).union(set(default_funcs))\n    else:", 'D3'),
     Mutant('whitelist-adds-defaults', MH, "        permitted_functions = set(always_allowed).union(whitelist)", "        permitted_functions = set(always_allowed).union(whitelist).union(default_funcs)", 'D3'),
     Mutant('whitelist-forgets-user-functions', MH, "        permitted_functions = set(always_allowed).union(whitelist)", "        permitted_functions = set(whitelist)", 'D3'),
+    Mutant('seeded-blacklist-not-applied-to-user-functions', MH, "        permitted_functions = set(always_allowed).union(\n            set(default_funcs)\n            ).difference(set(blacklist))",
+           "        permitted_defaults = set(default_funcs).difference(blacklist)\n        permitted_functions = set(always_allowed).union(permitted_defaults)", 'D3'),
     Mutant('blacklist-whitelist-swapped-at-call', MH, "                                                           self.config['whitelist'],\n                                                           self.config['blacklist'],",
            "                                                           self.config['blacklist'],\n                                                           self.config['whitelist'],", 'D3'),
     # D4
@@ -1223,7 +1283,7 @@ BENIGN = [
     Benign('forbidden-inline', MH, "        stripped_expr = expression.replace(' ', '')\n        for forbidden in forbidden_strings:\n            check_for = forbidden.replace(' ', '')\n            if check_for in stripped_expr:",
            "        for forbidden in forbidden_strings:\n            if forbidden.replace(' ', '') in expression.replace(' ', ''):"),
     Benign('permitted-set-operators', MH, "        permitted_functions = set(always_allowed).union(\n            set(default_funcs)\n            ).difference(set(blacklist))",
-           "        permitted_functions = (set(default_funcs) - set(blacklist)) | set(always_allowed)"),
+           "        permitted_functions = (set(default_funcs) | set(always_allowed)) - set(blacklist)"),
     Benign('not-whitelist', MH, "    if whitelist == []:\n        permitted_functions", "    if not whitelist:\n        permitted_functions"),
     Benign('log-before-student-eval', FG, "            for key in var_blacklist:\n                del varlist[key]\n\n            student_eval, meta",
            "            for key in var_blacklist:\n                del varlist[key]\n            self.log('scrubbed')\n\n            student_eval, meta"),
